@@ -9,23 +9,23 @@ Proof.
   revert i s; induction tr as [|op rest IH]; intros i s Hn Hc; cbn [exec]; rewrite ?Hc.
   - cbn. rewrite Hc. auto.
   - inversion Hn as [|? ? Hop Hrest]; subst.
-    destruct (match k with Some n => Nat.eqb n i | None => false end).
+    destruct (existsb (Nat.eqb i) k).
     + destruct op; try congruence; apply IH; auto.
     + destruct op; apply IH; auto.
 Qed.
 
-(* success is reported exactly when the commit operation was performed *)
+(* success is reported exactly when the commit operation was performed, whatever set of operations fails *)
 Lemma success_iff_committed tr i k s : no_posterr tr ->
   snd (exec tr i k s) = ROk <-> committed (fst (exec tr i k s)) = true.
 Proof.
   revert i s; induction tr as [|op rest IH]; intros i s Hn; cbn [exec].
   - cbn. destruct (committed s); split; congruence.
   - inversion Hn as [|? ? Hop Hrest]; subst. destruct (committed s) eqn:Hc.
-    + destruct (match k with Some n => Nat.eqb n i | None => false end);
+    + destruct (existsb (Nat.eqb i) k);
         destruct op; try congruence;
         match goal with |- snd (exec ?t ?j ?kk ?ss) = _ <-> _ =>
           destruct (exec_committed_ok t j kk ss Hrest) as (A & B); [try reflexivity; assumption|]; rewrite A, B; tauto end.
-    + destruct (match k with Some n => Nat.eqb n i | None => false end).
+    + destruct (existsb (Nat.eqb i) k).
       * destruct op; try (cbn; rewrite Hc; split; congruence). apply IH, Hrest.
       * destruct op; apply IH, Hrest.
 Qed.
@@ -36,32 +36,44 @@ Proof.
   destruct o; try (apply IH in Hm; lia). inv Hm. lia.
 Qed.
 
-(* a fault strictly before, or at, the commit operation -- on an operation that is not best-effort -- leaves
-   the primary state as it was and reports an error *)
+(* some faulted position at or before the commit is on an operation that is not best-effort *)
+Definition hard_fault_upto (tr : list opclass) (i : nat) (k : list nat) (n : nat) : Prop :=
+  exists f, In f k /\ i <= f /\ f <= n /\ nth_error tr (f - i) <> Some Opt.
+
+(* a fault (one of possibly several) at or before the commit operation, on an operation that is not best-effort,
+   leaves the primary state as it was and reports an error *)
 Lemma fault_upto_commit_unchanged tr i k s n :
-  committed s = false -> commit_index_from tr i = Some n -> i <= k -> k <= n ->
-  nth_error tr (k - i) <> Some Opt ->
-  snd (exec tr i (Some k) s) = RErr /\ committed (fst (exec tr i (Some k) s)) = false.
+  committed s = false -> commit_index_from tr i = Some n -> hard_fault_upto tr i k n ->
+  snd (exec tr i k s) = RErr /\ committed (fst (exec tr i k s)) = false.
 Proof.
-  revert i s; induction tr as [|op rest IH]; intros i s Hc Hci Hik Hkn Hopt; cbn [commit_index_from] in Hci; [discriminate|].
-  cbn [exec]. rewrite Hc. destruct (Nat.eqb_spec k i) as [->|Hne].
-  - rewrite Nat.sub_diag in Hopt. cbn in Hopt. destruct op; try (cbn; auto; fail). congruence.
-  - assert (Hs : S i <= k) by lia.
-    assert (Hn' : nth_error rest (k - S i) <> Some Opt).
-    { replace (k - i) with (S (k - S i)) in Hopt by lia. exact Hopt. }
-    destruct op; try (apply IH; auto; fail). inv Hci. lia.
+  revert i s; induction tr as [|op rest IH]; intros i s Hc Hci Hf; cbn [commit_index_from] in Hci; [discriminate|].
+  cbn [exec]. rewrite Hc. destruct Hf as (f & Hin & Hif & Hfn & Hopt).
+  assert (Hrest : i < f -> hard_fault_upto rest (S i) k n).
+  { intros Hlt. exists f. repeat split; auto; try lia. replace (f - i) with (S (f - S i)) in Hopt by lia. exact Hopt. }
+  destruct (existsb (Nat.eqb i) k) eqn:Ef.
+  - destruct op; try (cbn; auto; fail).
+    (* this position is best-effort: the hard fault is later *)
+    destruct (Nat.eq_dec f i) as [->|Hne]; [rewrite Nat.sub_diag in Hopt; cbn in Hopt; congruence|].
+    apply IH; auto. apply Hrest. lia.
+  - assert (Hne : f <> i).
+    { intros ->. assert (existsb (Nat.eqb i) k = true) by (apply existsb_exists; exists i; split; [exact Hin | apply Nat.eqb_refl]). congruence. }
+    destruct op; try (apply IH; auto; apply Hrest; lia). inv Hci. lia.
 Qed.
 
-(* a fault after the commit does not undo it and the request still reports success *)
+(* if every fault lies after the commit, the commit is performed and the request still reports success *)
 Lemma fault_after_commit_success tr i k s n : no_posterr tr ->
-  committed s = false -> commit_index_from tr i = Some n -> n < k ->
-  snd (exec tr i (Some k) s) = ROk /\ committed (fst (exec tr i (Some k) s)) = true.
+  committed s = false -> commit_index_from tr i = Some n -> (forall f, In f k -> n < f) ->
+  snd (exec tr i k s) = ROk /\ committed (fst (exec tr i k s)) = true.
 Proof.
-  revert i s; induction tr as [|op rest IH]; intros i s Hn Hc Hci Hnk; cbn [commit_index_from] in Hci; [discriminate|].
+  revert i s; induction tr as [|op rest IH]; intros i s Hn Hc Hci Hk; cbn [commit_index_from] in Hci; [discriminate|].
   inversion Hn as [|? ? Hop Hrest]; subst.
   cbn [exec]. rewrite Hc.
-  destruct op; try (pose proof (commit_index_from_ge _ _ _ Hci); destruct (Nat.eqb_spec k i); [lia|]; apply IH; auto; fail).
-  inv Hci. destruct (Nat.eqb_spec k n); [lia|]. apply exec_committed_ok; auto.
+  assert (Hnf : forall m, commit_index_from (op :: rest) i = Some m -> i <= m) by (intros m; apply commit_index_from_ge).
+  assert (Ef : i <= n -> existsb (Nat.eqb i) k = false).
+  { intros Hle. destruct (existsb (Nat.eqb i) k) eqn:E; [|reflexivity]. apply existsb_exists in E as (x & Hx & Hxe).
+    apply Nat.eqb_eq in Hxe; subst x. apply Hk in Hx. lia. }
+  destruct op; try (pose proof (commit_index_from_ge _ _ _ Hci); rewrite Ef by lia; apply IH; auto; fail).
+  inv Hci. rewrite Ef by lia. apply exec_committed_ok; auto.
 Qed.
 
 (* the commit is never undone: whatever fails afterwards (even when an error is returned), the primary state is
@@ -69,7 +81,7 @@ Qed.
 Lemma committed_stays tr i k s : committed s = true -> committed (fst (exec tr i k s)) = true.
 Proof.
   revert i s; induction tr as [|op rest IH]; intros i s Hc; cbn [exec]; rewrite ?Hc; [cbn; auto|].
-  destruct (match k with Some n => Nat.eqb n i | None => false end); destruct op; try (apply IH; auto); cbn; auto.
+  destruct (existsb (Nat.eqb i) k); destruct op; try (apply IH; auto); cbn; auto.
 Qed.
 
 (* without a commit operation (a request rejected by validation / sync function / conflict rules) nothing is
@@ -81,11 +93,11 @@ Proof.
   revert i s; induction tr as [|op rest IH]; intros i s Hc Hci; cbn [exec]; rewrite Hc.
   - cbn. rewrite Hc. auto.
   - cbn [commit_index_from] in Hci.
-    destruct (match k with Some n => Nat.eqb n i | None => false end);
+    destruct (existsb (Nat.eqb i) k);
       destruct op; try discriminate; try (cbn; auto; fail); apply IH; auto.
 Qed.
 
 (* the defect: with a PostErr follow-up the request can fail although its commit is durable *)
 Lemma posterr_reports_failure_after_commit :
-  exists tr k, snd (run_request tr (Some k)) = RErr /\ committed (fst (run_request tr (Some k))) = true.
+  exists tr k, snd (run_request tr [k]) = RErr /\ committed (fst (run_request tr [k])) = true.
 Proof. exists [Read; Commit; PostErr], 2. vm_compute. auto. Qed.
